@@ -15,7 +15,9 @@ TRACE_BUILDER = True   # builder calls made by this check are also run through P
 THEOREMS = ["Pypika.C12.window_correct", "Pypika.C12.limit_zero_kept", "Pypika.C12.mssql_offset_with_fetch",
             "Pypika.C12.setop_window_correct", "Pypika.C12.last_wins", "Pypika.C12.readNat_natText",
             # concrete builder model (Builder.lean, tied call by call through harness/trace.py)
-            "Pypika.B.limit_last_wins", "Pypika.B.offset_last_wins", "Pypika.B.slice_is_offset_limit", "Pypika.B.limit_offset_commute", "Pypika.B.limit_zero_stored"]
+            "Pypika.B.limit_last_wins", "Pypika.B.offset_last_wins", "Pypika.B.slice_is_offset_limit", "Pypika.B.limit_offset_commute", "Pypika.B.limit_zero_stored",
+            # set-operation builder (Builder.lean stepS / mkSetOp, tied call by call through harness/trace.py)
+            "Pypika.B.setop_limit_last_wins", "Pypika.B.setop_offset_last_wins", "Pypika.B.setop_limit_zero_stored"]
 AGREE = ["Pypika.Agree.pagination", "Pypika.Agree.setop_pagination"]
 TRUSTED = [
     "Spec: pagination grammars of the three families (LIMIT n [OFFSET m]; [OFFSET m ROWS] [FETCH NEXT n ROWS ONLY]; "
